@@ -98,8 +98,9 @@ func c03Gen(rng *rand.Rand, m *model.Model, keys []string) []string {
 		if rng.Intn(2) == 0 {
 			opts = append(opts, []string{"COUNT", pick(rng, []string{"0", "1", "2", strconv.Itoa(n + 1), "-1"})})
 		}
-		if rng.Intn(3) == 0 {
-			opts = append(opts, []string{"MAXLEN", pick(rng, []string{"0", "1", strconv.Itoa(n), "2", "-1"})})
+		if rng.Intn(2) == 0 {
+			// (windows shorter than the list matter together with a negative RANK: the window is then at the tail)
+			opts = append(opts, []string{"MAXLEN", pick(rng, []string{"0", "1", strconv.Itoa(n), "2", "3", strconv.Itoa(n - 1), strconv.Itoa(n - 2), strconv.Itoa(n/2 + 1), "-1"})})
 		}
 		rng.Shuffle(len(opts), func(i, j int) { opts[i], opts[j] = opts[j], opts[i] })
 		for _, o := range opts {
@@ -148,7 +149,53 @@ func c03Gen(rng *rand.Rand, m *model.Model, keys []string) []string {
 
 func checkC03(r *verdict.Run) {
 	r.Rule = "random sequences of list commands over 3 list keys (lengths 0-8 with duplicates) + wrong-typed + missing keys; indexes/counts/ranks in [-len-2, len+2] and extremes, source = destination for LMOVE/RPOPLPUSH, LMPOP over 1-3 keys, LPOS with RANK/COUNT/MAXLEN in any order; " +
-		"oracle per step: reply = reference model reply, full observable state = model state (element order, key disappears exactly when empty), failed commands inert. distinct = (command+options, prior key class, outcome class)"
+		"plus a complete sweep of LPOS element x RANK -4..4 x MAXLEN 0..8 x COUNT {none, 0, 2} on a seven-element list with repeats; oracle per step: reply = reference model reply, full observable state = model state (element order, key disappears exactly when empty), failed commands inert. distinct = (command+options, prior key class, outcome class)"
 	runDiffSequences(r, tierPick(r, 300, 6000), func(rng *rand.Rand) int { return 30 + rng.Intn(50) },
 		[]string{"l0", "l1", "l2", "ws", "wh", "wt", "km"}, [][]string{{"SET", "ws", "str"}, {"HSET", "wh", "f", "v"}, {"SADD", "wt", "a", "b"}, {"RPUSH", "l0", "a", "b", "c", "a"}}, c03Gen)
+	c03LposSweep(r)
+}
+
+// c03LposSweep: LPOS has three options that interact (RANK picks the direction and the n-th match, MAXLEN limits the
+// comparisons from that end, COUNT the number of results): every combination over a list with repeated elements.
+func c03LposSweep(r *verdict.Run) {
+	c, err := startChild(false)
+	if err != nil {
+		r.Inconclusive("cannot start child")
+		return
+	}
+	defer c.Stop()
+	d, err := newDiffEnv(r, c, []string{"lp"})
+	if err != nil {
+		r.Inconclusive("infra: " + err.Error())
+		return
+	}
+	defer d.close()
+	d.monitor = "lpos"
+	if _, ok := d.step([]string{"RPUSH", "lp", "a", "b", "c", "a", "b", "c", "a"}); !ok {
+		return
+	}
+	d.noState = true
+	for _, el := range []string{"a", "b", "c", "z"} {
+		for rank := -4; rank <= 4; rank++ {
+			for maxlen := -1; maxlen <= 8; maxlen++ {
+				for _, count := range []string{"", "0", "2"} {
+					args := []string{"LPOS", "lp", el}
+					if rank != 0 || maxlen == 3 {
+						args = append(args, "RANK", strconv.Itoa(rank))
+					}
+					if maxlen >= 0 {
+						args = append(args, "MAXLEN", strconv.Itoa(maxlen))
+					}
+					if count != "" {
+						args = append(args, "COUNT", count)
+					}
+					if _, ok := d.step(args); !ok {
+						return
+					}
+					r.Eval(1)
+				}
+			}
+		}
+	}
+	r.Distinct("lpos-sweep")
 }
